@@ -73,7 +73,8 @@ pub fn reference(a: (i128, i128), s: (i128, i128), b: (i128, i128), inclusive: b
 }
 
 impl UnitRunner for C15 {
-  fn unit(&mut self, _payload: &str, unit: u64, out: &mut WorkerOut) {
+  fn unit(&mut self, payload: &str, unit: u64, out: &mut WorkerOut) {
+    if payload == "resolve" { self.resolve_unit(unit, out); return; }
     let ki = (unit / 32) as usize;
     let ai = (unit % 32) as usize;
     if ki >= KINDS.len() { return; }
@@ -159,6 +160,44 @@ impl UnitRunner for C15 {
   }
 }
 
+impl C15 {
+  /// A range over mutable operands, the operands reassigned, the plan re-solved once: the range must then be the progression of the new
+  /// operands (or, if the implementation does not recompute it, still that of the old ones) - never a mixture, never extra or stale terms.
+  fn resolve_unit(&mut self, unit: u64, out: &mut WorkerOut) {
+    let moves: [((i64, i64), (i64, i64)); 8] = [((1, 5), (3, 7)), ((1, 5), (2, 4)), ((2, 4), (1, 6)), ((3, 3), (5, 5)), ((1, 4), (1, 6)), ((2, 6), (4, 6)), ((0, 3), (1, 4)), ((1, 2), (4, 9))];
+    let forms: [(&str, bool, i64); 4] = [("a..b", false, 1), ("a..=b", true, 1), ("a..2..b", false, 2), ("a..2..=b", true, 2)];
+    let kinds = ["f64", "u8", "i64"];
+    let (mi, fi, ki) = ((unit % 8) as usize, ((unit / 8) % 4) as usize, ((unit / 32) % 3) as usize);
+    if unit >= 96 { return; }
+    let ((x, y), (x2, y2)) = moves[mi];
+    let (form, inclusive, step) = forms[fi];
+    let kind = kinds[ki];
+    let lit = |v: i64| match kind { "u8" => format!("{}u8", v), _ => v.to_string() };
+    let expr = if kind == "u8" { form.replace("2", "2u8") } else { form.to_string() };
+    let defs = if kind == "i64" { format!("~a<i64> := {}\n~b<i64> := {}", x, y) } else { format!("~a := {}\n~b := {}", lit(x), lit(y)) };
+    let asg = if kind == "i64" { format!("t1<i64> := {}\nt2<i64> := {}\na = t1\nb = t2", x2, y2) } else { format!("a = {}\nb = {}", lit(x2), lit(y2)) };
+    let prog = |from: i64, to: i64| -> Vec<String> { let mut v = vec![]; let mut t = from; while if inclusive { t <= to } else { t < to } { v.push(match kind { "f64" => crate::canon::f64_text(t as f64), _ => t.to_string() }); t += step; } v };
+    let case = format!("{} ; r := {} ; {} ; step(0,1)", defs.replace('\n', " ; "), expr, asg.replace('\n', " ; "));
+    let mut s = Session::new();
+    out.evaluations += 1;
+    if !s.run(&defs).is_value() || !s.run(&format!("r := {}", expr)).is_value() { out.count("resolve_setup_rejected"); return; }
+    let terms = |s: &Session| -> Option<Vec<String>> { match s.get("r") { Some(Canon::Matrix(_, _, _, e, _)) => Some(e.iter().map(|x| x.bare()).collect()), Some(other) => Some(vec![other.bare()]), None => None } };
+    if terms(&s) != Some(prog(x, y)) { out.count("resolve_first_value_differs(judged by the main family)"); return; }
+    if !s.run(&asg).is_value() { out.count("resolve_assignment_rejected"); return; }
+    match std::panic::catch_unwind(std::panic::AssertUnwindSafe(|| s.intrp.step(0, 1))) {
+      Ok(Ok(_)) => {
+        out.nontrivial += 1;
+        let got = terms(&s);
+        if got != Some(prog(x2, y2)) && got != Some(prog(x, y)) {
+          out.fail(format!("C15|stale-or-mixed-after-resolve|{}:{}", form, kind), case, format!("operands now give {:?} (before: {:?}), the range holds {:?}", prog(x2, y2), prog(x, y), got));
+        } else if got == Some(prog(x2, y2)) { out.count("resolve_recomputed"); } else { out.count("resolve_kept_old_value"); }
+      }
+      Ok(Err(_)) => { out.count("resolve_step_rejected"); }
+      Err(p) => out.fail(format!("C15|panic|resolve:{}:{}", form, kind), case, crate::subject::panic_msg(p)),
+    }
+  }
+}
+
 impl Check for C15 {
   fn id(&self) -> &'static str { "C15" }
   fn level(&self) -> &'static str { "exploration" }
@@ -168,12 +207,15 @@ impl Check for C15 {
       the reference is the exact progression a+i*s in fraction arithmetic; evaluations = range expressions; non-trivial = expressions with a fixed verdict (exact terms, or error/empty for zero step and wrong order)".into();
     rep.assumptions = vec![
       "a well-formed descending range (negative step, a > b) may be rejected (the statement's second sentence allows error for bounds/step mismatch and is silent on descent); if a value is returned it must be the descending progression".into(),
+      "re-solve family (8 operand moves x 4 forms x f64 / u8 / i64): after the operands are reassigned and the plan is stepped once, the range must be the progression of the new operands or still that of the old ones".into(),
       "results longer than 64 terms are skipped (counted); result orientation is not judged; a kind for which every range is rejected is unsupported".into(),
     ];
     let tier2 = tier;
     rep.describe = Some(Box::new(move |_p, u| { let k = KINDS.get((u / 32) as usize).copied().unwrap_or("?"); let pl = pool(k, tier2); let a = pl.get((u % 32) as usize).map(|x| x.2.clone()).unwrap_or_default(); (format!("ranges:{}", k), format!("some range with a<{}> := {} over the pool", k, a)) }));
     rep.cov("bounds", json!({"kinds": KINDS, "pool_sizes": KINDS.iter().map(|k| pool(k, tier).len()).collect::<Vec<_>>() }));
-    drive_ranges(cfg, rep, range_jobs("", KINDS.len() as u64 * 32, 1));
+    let mut jobs = range_jobs("", KINDS.len() as u64 * 32, 1);
+    jobs.extend(range_jobs("resolve", 96, 8));
+    drive_ranges(cfg, rep, jobs);
     let supported = rep.out.sets.get("supported_kinds").cloned().unwrap_or_default();
     let before = rep.out.failures.len();
     rep.out.failures.retain(|f| { if f.key.starts_with("C15|valid-rejected|") { let k = f.case.rsplit('[').next().unwrap_or("").trim_end_matches(']'); supported.contains(k) } else { true } });
